@@ -69,6 +69,9 @@ LOOPS (second half of this file).
 * `for k, x in enumerate(L)`: `forList` over `enumerate L` = `[(0, L[0]), (1, L[1]), …]`. `[c] * n` (`replicate`): `n` copies, none when
   `n ≤ 0`. `L[i] = v` on a list created in the function (`setIdx`): the list with item `i` replaced, Python's negative indices,
   `IndexError` out of range; `L[i] op= e` reads `L[i]`, evaluates `e`, stores the result at `i`.
+* TABLES: a 2-D numpy array of floats that is only indexed `T[i, j]` is the list of its rows: `np.zeros((r, c))` (`zeros2`, `ValueError` on a negative dimension), `T[i, j]`
+  (`getIdx2`), `T[i, j] = v` (`setIdx2`, the value converted to a float as numpy does for a float64 array), `T.shape[0]` (`len`). A row
+  index is resolved before the column index; both follow Python's rule for negative indices (numpy's is the same) and raise `IndexError`.
 * `raise E(…)`: the error value `Err.raised`, whatever the class and the message. `b * x` with `b` a bool and `x` a float: `True` is 1, `False` is 0.
 * `sys.float_info.max` is a parameter `dblmax : α` (uninterpreted). `lambda p: e` bound to a local and called later is its body on
   the argument (the translator refuses a lambda that reads a variable the function assigns).
@@ -373,6 +376,17 @@ theorem setIdx_natCast {β : Type} (l : List β) (k : Nat) (v : β) (h : k < l.l
   unfold setIdx; rw [if_pos (by omega), Int.toNat_natCast, if_pos h]
 theorem setIdx_natCast_error {β : Type} (l : List β) (k : Nat) (v : β) (h : l.length ≤ k) : setIdx l (k : Int) v = .error .index := by
   unfold setIdx; rw [if_pos (by omega), Int.toNat_natCast, if_neg (by omega)]
+
+/-- `np.zeros((r, c))` as a table: `r` rows of `c` zeros; `ValueError` on a negative dimension -/
+def zeros2 {β : Type} (r c : Int) (z : β) : M (List (List β)) :=
+  if r < 0 ∨ c < 0 then .error .value else .ok (replicate r (replicate c z))
+
+/-- `T[i, j]` on a table (list of rows): row `i`, then item `j`, each with Python's / numpy's negative indices and `IndexError` -/
+def getIdx2 {β : Type} (t : List (List β)) (i j : Int) : M β := bind (getIdx t i) fun r => getIdx r j
+
+/-- `T[i, j] = v` on a table -/
+def setIdx2 {β : Type} (t : List (List β)) (i j : Int) (v : β) : M (List (List β)) :=
+  bind (getIdx t i) fun r => bind (setIdx r j v) fun r' => setIdx t i r'
 
 /-- reading a variable that may not have been assigned yet -/
 @[inline] def getBound {β : Type} : Option β → M β
